@@ -60,17 +60,33 @@ def expected (src tgt : Ty) (s : Src) : Option String :=
       | some v => if inRange tgt v ∧ (tgt = .c → isGraph v) then some (hexLE (intBits tgt v) tgt.size) else none
       | none => none
 
-def altsVal (exp : Option String) : String :=
-  let refused := "dst=refused out=- nodst=refused ; *"
-  match exp with
-  | some h => s!"dst=ok out={h} nodst=ok ; * || {refused}"
-  | none => refused
+/-- S: the exact result or a refusal; `size` = the documented return value (size of the target) when the
+    converter itself is called -/
+def altsVal (exp : Option String) (size : Option Nat := none) : String :=
+  match size with
+  | none =>
+    let refused := "dst=refused out=- nodst=refused ; *"
+    match exp with
+    | some h => s!"dst=ok out={h} nodst=ok ; * || {refused}"
+    | none => refused
+  | some n =>
+    let refused := "dst=refused out=- ret=- nodst=refused qret=- ; *"
+    match exp with
+    | some h => s!"dst=ok out={h} ret={n} nodst=ok qret={n} ; * || {refused}"
+    | none => refused
 
-def fmtVal (tgt : Ty) (rd rq : Res (Option Out × Nat)) : String :=
+def retObs {α} (f : α → Nat) : Res α → String
+  | .ok v => toString (f v)
+  | _ => "-"
+
+def fmtVal (tgt : Ty) (rd rq : Res (Option Out × Nat)) (withRet : Bool := false) : String :=
   let out := match rd with
     | .ok (some o, _) => outText tgt o
     | _ => "-"
-  s!"R dst={resName rd} out={out} nodst={resName rq} | C - | I ret={retName (·.2) rd} qret={retName (·.2) rq}"
+  if withRet then
+    s!"R dst={resName rd} out={out} ret={retObs (·.2) rd} nodst={resName rq} qret={retObs (·.2) rq} | C - | I ret={retName (·.2) rd} qret={retName (·.2) rq}"
+  else
+    s!"R dst={resName rd} out={out} nodst={resName rq} | C - | I ret={retName (·.2) rd} qret={retName (·.2) rq}"
 
 /-- `mpt_value_convert` restricted to scalar source and target types: the converter, then the raw copy of
     an identical type (scalar traits have neither init nor fini), else BadType -/
@@ -117,7 +133,7 @@ def sweepLoop (src tgt : Ty) (hi : Int) : Nat → Int → Sweep → Sweep
     let rq := conv src tgt (.int v) false
     let exp := expected src tgt (.int v)
     let wrong : Option String := match rd with
-      | .ok (some o, _) => if some (outText tgt o) = exp then none else some s!"{v}={outText tgt o}"
+      | .ok (some o, n) => if some (outText tgt o) = exp ∧ n = tgt.size then none else some s!"{v}={outText tgt o}"
       | .ok (none, _) => some s!"{v}=?"
       | .err _ => none
       | r => some s!"{v}={resName r}"
@@ -143,6 +159,11 @@ def fmtText (tgt : Ty) (rd rq : TextRes) : String :=
 def altsText (tgt : Ty) (s : List Nat) : String :=
   let oks := (List.range (s.length + 1)).filterMap fun k =>
     if (s.take k).all isSpace then some s!"dst=ok n={k} out=- nodst=ok n={k} ; *" else
+    if tgt = .c then
+      -- a character target receives the first non-blank character, which must be printable
+      let c := s.getD (k - 1) 0
+      if (s.take (k - 1)).all isSpace ∧ isGraph c then some s!"dst=ok n={k} out={hexLE c 1} nodst=ok n={k} ; *" else none
+    else
     match numeral (s.take k) with
     | some v => if inRange tgt v then some s!"dst=ok n={k} out={hexLE (intBits tgt v) tgt.size} nodst=ok n={k} ; *" else none
     | none => none
@@ -160,23 +181,42 @@ def parseAlts (w : String) : Option (List (Nat × String)) :=
     | [k, v] => k.toNat?.map fun k => (k, v)
     | _ => none
 
-def ftextLine (_fn : String) (s : List Nat) (alts : List (Nat × String)) : String :=
+def floatParserFor (fn : String) (tgt : Ty) : Option TextParser :=
+  let name : Option String :=
+    if fn = "cflt" then some (if tgt = .f then "mpt_cfloat" else if tgt = .d then "mpt_cdouble" else "mpt_cldouble")
+    else (Generated.Text.numberDispatch.find? (·.1 = tgt.code)).map (·.2.1)
+  name.bind fun n => Generated.Text.parsers.find? (·.name = n)
+
+def ftextLine (fn : String) (tgt : Ty) (s0 : List Nat) (alts : List (Nat × String)) : String :=
+  -- `mpt_convert_string` skips the blanks itself and reports "no value" as 0
+  let ws := (s0.takeWhile isSpace).length
+  let s := if fn = "string" then s0.drop ws else s0
+  let off := if fn = "string" then ws else 0
   let best := alts.foldl (fun (b : Option (Nat × String)) a => match b with
     | some (k, _) => if a.1 > k then some a else b
     | none => some a) none
-  -- (verdict, n, out) with destination
-  let r : String × String × String :=
-    if s = [] then ("ok", "0", "-")
-    else match best with
-      | some (k, v) => if v = "ovf" then ("refused", "BadValue", "-") else ("ok", toString k, v)
-      | none =>
-        if s.all isSpace then ("ok", "0", "-")
-        else ("refused", "BadType", "-")
+  let oracle : StrToF × String := match best with
+    | some (k, v) =>
+      if v = "ovf" then ({ value := .inf false, consumed := k - off, erange := true, overflow := true }, v)
+      else if v = "-ovf" then ({ value := .inf true, consumed := k - off, erange := true, overflow := true }, v)
+      else if v = "nan" then ({ value := .nan, consumed := k - off, erange := false, overflow := false }, v)
+      else match parseHex v with
+        | some bs => ({ value := decode (tgtCTy tgt).fmt (leValue bs), consumed := k - off, erange := false, overflow := false }, v)
+        | none => ({ value := .nan, consumed := 0, erange := false, overflow := false }, v)
+    | none => ({ value := .nan, consumed := 0, erange := false, overflow := false }, "-")
+  let res : Res (Option FVal × Nat) := match floatParserFor fn tgt with
+    | some p => runFloatParser p oracle.1 s true
+    | none => .err .BadType
+  let r : String × String × String := match res with
+    | .ok (some _, n) => ("ok", toString (n + off), oracle.2)
+    | .ok (none, n) => ("ok", toString (if n = 0 then 0 else n + off), "-")
+    | .err e => ("refused", e.name, "-")
+    | x => (resName x, "-", "-")
   let nn := if r.1 = "ok" then r.2.1 else "-"
-  let oks := (List.range (s.length + 1)).filterMap fun k =>
-    if (s.take k).all isSpace then some s!"dst=ok n={k} out=- nodst=ok n={k} ; *" else
+  let oks := (List.range (s0.length + 1)).filterMap fun k =>
+    if (s0.take k).all isSpace then some s!"dst=ok n={k} out=- nodst=ok n={k} ; *" else
     match alts.find? (·.1 = k) with
-    | some (_, v) => if v = "ovf" then none else some s!"dst=ok n={k} out={v} nodst=ok n={k} ; *"
+    | some (_, v) => if v = "ovf" ∨ v = "-ovf" then none else some s!"dst=ok n={k} out={v} nodst=ok n={k} ; *"
     | none => none
   let spec := " || ".intercalate (oks ++ ["dst=refused n=- out=- nodst=refused n=- ; *"])
   s!"R dst={r.1} n={nn} out={r.2.2} nodst={r.1} n={nn} | C - | I ret={r.2.1} | S {spec}"
@@ -188,7 +228,7 @@ def step (_ : Unit) (w : List String) : Unit × String :=
     | some src, some tgt =>
       match parseSrc src v with
       | some x =>
-        ((), fmtVal tgt (conv src tgt x true) (conv src tgt x false) ++ " | S " ++ altsVal (expected src tgt x))
+        ((), fmtVal tgt (conv src tgt x true) (conv src tgt x false) true ++ " | S " ++ altsVal (expected src tgt x) (some tgt.size))
       | none => ((), "bad-op")
     | _, _ => ((), "bad-op")
   | ["c", "vval", s, t, v] =>
@@ -223,9 +263,10 @@ def step (_ : Unit) (w : List String) : Unit × String :=
   | ["c", "text", fn, t, hex] =>
     match Ty.ofName t, parseHex hex with
     | some tgt, some bs =>
-      if tgt ∈ [Ty.b, .y, .n, .q, .i, .u, .x, .t] ∧ fn ∈ ["number", "string", "cint"] then
+      if (tgt ∈ [Ty.b, .y, .n, .q, .i, .u, .x, .t] ∧ fn ∈ ["number", "string", "cint"]) ∨ (tgt = .c ∧ fn ∈ ["number", "string"]) then
         let s := cstr (bs.map (·.toNat))
-        let f := if fn = "string" then convertString tgt s else convertNumber tgt s
+        let wrapper := if tgt.signed then s!"mpt_cint{8 * tgt.size}" else s!"mpt_cuint{8 * tgt.size}"
+        let f := if fn = "string" then convertString tgt s else if fn = "cint" then runWrapper wrapper s 0 else convertNumber tgt s
         ((), fmtText tgt (f true) (f false) ++ " | S " ++ altsText tgt s)
       else ((), "bad-op")
     | _, _ => ((), "bad-op")
@@ -233,7 +274,7 @@ def step (_ : Unit) (w : List String) : Unit × String :=
     match Ty.ofName t, parseHex hex, parseAlts alts with
     | some tgt, some bs, some al =>
       if tgt.isFloat ∧ fn ∈ ["number", "string", "cflt"] then
-        ((), ftextLine fn (cstr (bs.map (·.toNat))) al)
+        ((), ftextLine fn tgt (cstr (bs.map (·.toNat))) al)
       else ((), "bad-op")
     | _, _, _ => ((), "bad-op")
   | _ => ((), "bad-op")
